@@ -135,12 +135,21 @@ class Scenario(object):
         nodes = []
         for (res, cmd, args), (cl, als) in zip(self.commands, self.lines):
             nodes.append(prog.enc_node(res, cmd, [(n, raw_of(v), al) for (n, v), al in zip(args, als)], cl))
-        ops = " ".join("run" if o[0] == "run" else ("flag%d" % int(bool(o[1])) if o[0] == "flag" else "result " + enc_str(o[1])) for o in self.ops)
+        def enc_op(o):
+            if o[0] == "run":
+                return "run"
+            if o[0] == "flag":
+                return "flag%d" % int(bool(o[1]))
+            if o[0] == "add":       # Program.add_command(cls, result_name, {name: raw value}) through the API: no line numbers
+                res, cmd, args = o[1]
+                return "add " + prog.enc_node(res, cmd, [(n, raw_of(v), None) for n, v in args], None)
+            return "result " + enc_str(o[1])
+        ops = " ".join(enc_op(o) for o in self.ops)
         return "prog %s %d %s %d %s %d %s" % (prog.enc_env(self.wd, list(exist_paths)), len(decl_classes), decls,
                                                  len(nodes), " ".join(nodes), len(self.ops), ops)
 
     def describe(self):
-        return {"source": self.source, "ops": [list(o) for o in self.ops], "working_dir": self.wd, "libraries": list(self.libs)}
+        return {"source": self.source, "ops": [[repr(x) for x in o] for o in self.ops], "working_dir": self.wd, "libraries": list(self.libs)}
 
 
 # ---------------------------------------------------------------- instrumented implementation run
@@ -265,6 +274,10 @@ def run_impl(sc, recursion_limit=None):
                             p.run()
                         elif op[0] == "flag":
                             rec.flag = bool(op[1])
+                        elif op[0] == "add":
+                            r_, c_, a_ = op[1]
+                            from collections import OrderedDict
+                            p.add_command(p.find_command_class(c_), r_, OrderedDict((n, raw_of(v)) for n, v in a_))
                         else:
                             p.commands[op[1]].result
                     res["ops"].append("ok")
